@@ -270,6 +270,21 @@ class Problem:
         self._tr = sb.Translator()
         self._sym_pairs = []
         ham = self.sympy_inputs()
+        if self.cfg.get("sympy_input") == "expression":
+            # one sympy matrix depending on the perturbative symbols: the library Taylor-expands it (terms are monomials, so the expansion is exact)
+            import sympy
+
+            expr, lam = sympy_expression_input(ham, self.nparams)
+            # the terms returned for such input carry the perturbative symbols; they are read at the point PERT_POINT and divided by the monomial
+            self._pert_subs = dict(zip(lam, [sympy.Integer(x) for x in PERT_POINT]))
+            # documented precondition of this input form: every perturbative symbol occurs in the matrix (else ValueError); a model in which
+            # a whole listed term vanishes is therefore not an input of this form
+            import z3
+
+            for o, M in self.H.data.items():
+                if o != self.zero_order:
+                    symc.assume(z3.Or([c != 0 for x in np.asarray(M, dtype=object).ravel() for c in (lift(x).re, lift(x).im) if not isinstance(c, (int, Fraction))]))
+            return block_diagonalize(expr, symbols=list(lam), subspace_indices=list(self.blockof), hermitian=self.hermitian, **self.fd_kwarg())
         return block_diagonalize(ham, subspace_indices=list(self.blockof), hermitian=self.hermitian, **self.fd_kwarg())
 
     def validate_translation(self, seed=0):
@@ -378,9 +393,12 @@ class Problem:
                 out = np.empty(v.shape, dtype=object)
                 for a in range(v.shape[0]):
                     for b in range(v.shape[1]):
-                        out[a, b] = self._tr(v[a, b])
+                        e = v[a, b]
+                        if getattr(self, "_pert_subs", None):
+                            e = e.subs(self._pert_subs) / sympy.Mul(*[sympy.Integer(x) ** k for x, k in zip(PERT_POINT, order)])
+                        out[a, b] = self._tr(e)
                         if out[a, b].den or not out[a, b].const_value():
-                            self._sym_pairs.append((v[a, b], out[a, b]))
+                            self._sym_pairs.append((e, out[a, b]))
                 v = out
         except ImportError:
             pass
@@ -537,6 +555,21 @@ def np_cauchy(factors, order):
     return acc
 
 
+PERT_POINT = (2, 3, 5, 7)
+
+
+def sympy_expression_input(ham, nparams):
+    """One sympy matrix sum_o prod_k pert_k**o_k * H_o in real perturbative symbols pert_k (monomial terms: the library's Taylor expansion is exact)."""
+    import sympy
+
+    lam = [sympy.Symbol(f"pert_{k}", real=True) for k in range(nparams)]
+    N = next(iter(ham.values())).shape[0]
+    expr = sympy.zeros(N, N)
+    for o, M in ham.items():
+        expr += sympy.Mul(*[l**k for l, k in zip(lam, o)]) * M
+    return expr, lam
+
+
 def sympy_run(P, model):
     """Replay on the library's own symbolic mode with exact rational inputs (carrier C counterexamples)."""
     import sympy
@@ -552,7 +585,13 @@ def sympy_run(P, model):
     for o, M in P.H.data.items():
         if o != P.zero_order:
             ham[o] = sympy.Matrix(N, N, lambda i, j: q(M[i, j]))
-    Ht, U, Ui = block_diagonalize(ham, subspace_indices=list(P.blockof), hermitian=P.hermitian, **P.fd_kwarg())
+    pert_subs = None
+    if P.cfg.get("sympy_input") == "expression":
+        expr, lam = sympy_expression_input(ham, P.nparams)
+        pert_subs = dict(zip(lam, [sympy.Integer(x) for x in PERT_POINT]))
+        Ht, U, Ui = block_diagonalize(expr, symbols=list(lam), subspace_indices=list(P.blockof), hermitian=P.hermitian, **P.fd_kwarg())
+    else:
+        Ht, U, Ui = block_diagonalize(ham, subspace_indices=list(P.blockof), hermitian=P.hermitian, **P.fd_kwarg())
 
     def full(S, order):
         rows = []
@@ -565,6 +604,8 @@ def sympy_run(P, model):
                 elif v is one:
                     v = np.eye(P.sizes[i])
                 else:
+                    if pert_subs:
+                        v = sympy.Matrix(v).subs(pert_subs) / sympy.Mul(*[sympy.Integer(x) ** k for x, k in zip(PERT_POINT, order)])
                     v = np.array(sympy.Matrix(v).evalf(30).tolist(), dtype=complex)
                 row.append(np.asarray(v, dtype=complex))
             rows.append(row)
